@@ -31,8 +31,7 @@ func genRMWRules(d *draws, g *btGen, r *Run) []*btpb.ReadModifyWriteRule {
 	var rules []*btpb.ReadModifyWriteRule
 	seen := map[string]bool{}
 	for i := 0; i < 4; i++ {
-		sub := &draws{v: d.v[d.i : d.i+6]}
-		d.i += 6
+		sub := d.sub(6)
 		fam := g.fam(sub)
 		q := btQuals[sub.w(6, 2, 1, 1, 1)]
 		rule := &btpb.ReadModifyWriteRule{FamilyName: fam, ColumnQualifier: []byte(q)}
@@ -81,8 +80,7 @@ func runC13(r *Run) {
 				return btOp{Kind: "RMW", Table: tbl, Key: key, Rules: genRMWRules(d, gen, r)}
 			case 1:
 				// prior state: a cell relative to the clock (past, same millisecond, future), 8-byte or not
-				sub := &draws{v: d.v[d.i : d.i+8]}
-				d.i += 8
+				sub := d.sub(8)
 				nowMs := clk.ServerUs - clk.ServerUs%1000
 				ts := []int64{1000, nowMs, nowMs + 1000, nowMs + 3600_000_000, nowMs - 1000, maxValidTs, 0}[sub.n(7)]
 				val := [][]byte{{0, 0, 0, 0, 0, 0, 0, 5}, {}, []byte("abc"), {0xff, 0xff, 0xff, 0xff, 0xff, 0xff, 0xff, 0xff}, {0x7f, 0xff, 0xff, 0xff, 0xff, 0xff, 0xff, 0xff}, []byte("123456789")}[sub.n(6)]
